@@ -22,6 +22,7 @@ import keyword
 
 from sa import core
 from sa import pat
+from sa import rules_qn
 from sa import facts
 from sa import setalg
 from sa import tpl
@@ -55,6 +56,10 @@ def check(model, rep, tier):
   rep.rule('HYG-BIND', 'parameters bound in, and scope names reserved against, the function\'s own scope', floor=5)
   rep.rule('HYG-BINDER', 'no literal binder next to user identifiers', floor=40)
   rep.rule('HYG-FREE', 'no capturable literal free name', floor=40)
+  rep.rule('HYG-SUPPORT', 'the support of a composite state variable contains '
+           'every plain name in it (the setter parameter is reserved against '
+           'the union of the supports)', floor=3)
+  rules_qn.support(model, rep, 'HYG-SUPPORT')
 
   # ---------------------------------------------------------------- HYG-RESERVED
   n_sites = 0
